@@ -221,8 +221,8 @@ func propRegistry() map[string]PropSpec {
 	add(PropSpec{
 		ID: "C12",
 		Harnesses: []HarnessSpec{
-			{Pkg: "compress", Fn: "Harness_C12_gzip_wrapper", Init: []string{"util", "compress"}, Reach: []string{"C12.gzip.ok", "C12.gzip.write-error"}, EngineOnly: true},
-			{Pkg: "compress", Fn: "Harness_C12_brotli_wrapper", Init: []string{"util", "compress"}, Reach: []string{"C12.br.ok", "C12.br.write-error"}, EngineOnly: true},
+			{Pkg: "compress", Fn: "Harness_C12_gzip_wrapper", Init: []string{"util", "compress"}, Reach: []string{"C12.gzip.ok", "C12.gzip.write-error"}},
+			{Pkg: "compress", Fn: "Harness_C12_brotli_wrapper", Init: []string{"util", "compress"}, Reach: []string{"C12.br.ok", "C12.br.write-error"}},
 			{Pkg: "compress", Fn: "Harness_C12_service_levels", Init: []string{"util", "compress"}, Reach: []string{"C12.levels.end"}, EngineOnly: true},
 			{Pkg: "compress", Fn: "Harness_C12_lz4_buffer", Init: []string{"util", "compress"}, Reach: []string{"C12.lz4.end"}, EngineOnly: true},
 			{Pkg: "compress", Fn: "Harness_C12_dispatch", Init: []string{"util", "compress"}, Reach: []string{"C12.dispatch.end"}, EngineOnly: true},
